@@ -27,100 +27,20 @@ def main(run):
     I = ctx.I
     if 'data' not in F.get('features', []):
         run.violation('feature', 'facts were not built with the data feature')
-    for fn, ctor, owned in (('uri::scheme::data::DataUrl::new', 'uri::Uri::new', False), ('uri::scheme::data::DataUrlBuf::new', 'uri::UriBuf::new', True)):
+    # the constructors themselves are decided semantically by Engine S (obligations *-ctor-*): for a valid URI they return Ok exactly on the
+    # documented shape and store the text (and, owned, its delimiters); for anything else they hand the input back. Here only the anchor:
+    for fn, ctor in (('uri::scheme::data::DataUrl::new', 'uri::Uri::new'), ('uri::scheme::data::DataUrlBuf::new', 'uri::UriBuf::new')):
         b = P.body(fn)
-        key = f'ctor|{fn}'
-        if b is None:
-            run.violation(key, f'{fn} not found')
-            continue
         run.count('constructors')
-        where = P.where(b)
-        t = I.expand(I.terms(fn).ret())
-        cc = {c for c in find_calls(t, ctor)}
-        if len(cc) != 1:
-            run.violation(key, f'{where} {fn}: expected exactly one use of the URI validating constructor {ctor}, found {len(cc)}')
-            continue
-        c = next(iter(cc))
-        root = c[2][0]
-        n = 0
-        while root[0] == 'call' and root[2] and n < 5:
-            if not root[1].endswith(('AsRef::as_ref', 'Into::into')):
-                break
-            root = root[2][0]
-            n += 1
-        if root[0:2] != ('arg', 1):
-            run.violation(key, f'{where} {fn}: {ctor} is not applied to the input itself')
-            continue
-        # parse call on the validated value
-        T = terms.Terms(b)
-        pcs = [(bi, tt) for bi, tt in P.calls(b) if mir.callee(tt) == PARSE]
-        if len(pcs) != 1:
-            run.violation(key, f'{where} {fn}: expected exactly one call of {PARSE}, found {len(pcs)}')
-            continue
-        pbi, pt = pcs[0]
-        parg = ctx.text_root(T.operand(pt['args'][0]))
-        ok_arg = False
-        x = parg
-        for _ in range(6):
-            if x is None:
-                break
-            if x[0] == 'field' and x[1][0] == 'call' and x[1][1].endswith('Try>::branch'):
-                x = x[1]
-            if x[0] == 'call' and x[1].endswith('Try>::branch'):
-                inner = x[2][0]
-                while (inner[0] == 'call' and inner[1].endswith('::map_err') and inner[2]) or (inner[0] == 'hof' and inner[1] == 'map_err'):
-                    inner = inner[2][0] if inner[0] == 'call' else inner[2]
-                ok_arg = inner[0] == 'call' and inner[1] == ctor
-                break
-            if x[0] == 'field':
-                x = x[1]
-                continue
-            break
-        if not ok_arg:
-            run.violation(key, f'{P.where(b, pt["l"])} {fn}: {PARSE} is not applied to the text validated by {ctor} ({str(parg)[:100]})')
-            continue
-        # Ok only where parse returned Some
-        dom, succ, pred, reach = mir.dominators(b)
-        pl = pt['dest']['local']
-        some_blocks = set()
-        for bi, bl in enumerate(b['blocks']):
-            tt = bl['term']
-            if tt['k'] != 'switch' or tt['op']['k'] not in ('copy', 'move'):
-                continue
-            src = T.operand(tt['op'])
-            if src[0] == 'discr' and src[1] == T.local(pl):
-                for v, tg in tt['targets']:
-                    if v == 1:
-                        some_blocks.add(tg)
-            if src[0] == 'call' and src[1].endswith('::is_some') and src[2] and src[2][0] == T.local(pl):
-                some_blocks.add(tt['otherwise'])
-        bad = None
-        n_ok = 0
-        for bi, bl in enumerate(b['blocks']):
-            if bl['cleanup'] or bi not in reach:
-                continue
-            for s in bl['stmts']:
-                if s['k'] == 'assign' and s['rv']['k'] == 'aggregate' and s['rv']['kind'].get('path') == 'std::result::Result' and s['rv']['kind']['variant'] == 0 and s['place']['local'] == 0:
-                    n_ok += 1
-                    if not any(sb in dom[bi] for sb in some_blocks):
-                        bad = f'an Ok(..) is built at line {s["l"]} without {PARSE} having returned Some'
-                    pay = T.operand(s['rv']['ops'][0])
-                    if owned:
-                        okp = (pay[0] == 'agg' and pay[1][0] == 'adt' and pay[1][1] == 'uri::scheme::data::DataUrlBuf' and len(pay[2]) == 2
-                               and pay[2][1] == ('field', T.local(pl), 0) and ctx.text_root(pay[2][0]) is not None)
-                        if not okp:
-                            bad = f'the owned value built at line {s["l"]} does not store exactly the validated text and the offsets returned by parse'
-                    else:
-                        okp = pay[0] == 'call' and pay[1].endswith('DataUrl::new_unchecked')
-                        if not okp:
-                            bad = f'the borrowed value built at line {s["l"]} is not the validated text re-wrapped'
-        if n_ok != 1 and not bad:
-            bad = f'expected one Ok construction, found {n_ok}'
-        if bad:
-            run.violation(key, f'{where} {fn}: {bad}')
-            continue
-        run.count('constructors_ok')
-        run.sample({'constructor': fn, 'validates_with': ctor, 'then': PARSE, 'accepts_iff': 'Some'})
+        names = set()
+        if b is not None:
+            names = {mir.callee(t) or '' for _, t in P.calls(b)}
+            for cn in [n for n in P.bodies if n.startswith(fn + '::{closure')]:
+                names |= {mir.callee(t) or '' for _, t in P.calls(P.bodies[cn])}
+        if b is None or ctor not in names:
+            run.violation(f'ctor|{fn}', f'{fn} does not validate its input with {ctor} (the scanner obligations assume it does)')
+        else:
+            run.count('constructors_ok')
     # immutability of the owned form
     adt = P.adts.get('uri::scheme::data::DataUrlBuf')
     if adt:
@@ -141,9 +61,6 @@ def main(run):
         run.count('parts_fns')
         if b is None or not find_calls(I.terms(fn).ret(), want):
             run.violation(f'parts|{fn}', f'{fn} does not go through {want}')
-    pp = P.body("uri::scheme::data::DataUrlPartsRef::<'a>::parse")
-    if pp is None or not [1 for _, t in P.calls(pp) if mir.callee(t) == PARSE] or not [1 for _, t in P.calls(pp) if (mir.callee(t) or '').endswith('DataUrlDelimiters::into_parts')]:
-        run.violation('parts|DataUrlPartsRef::parse', 'DataUrlPartsRef::parse is not into_parts(DataUrlDelimiters::parse(text))')
     # owned accessors are the stored delimiters' accessors
     for fn, want in (('uri::scheme::data::DataUrlBuf::media_type', 'uri::scheme::data::DataUrlDelimiters::media_type'), ('uri::scheme::data::DataUrlBuf::encoded_data', 'uri::scheme::data::DataUrlDelimiters::data')):
         b = P.body(fn)
@@ -168,7 +85,7 @@ def main(run):
             run.violation(f'scan|{r["key"]}|{kind}|{msg[:60]}', f'{loc}: {r["what"]} — {msg}' + (f'; e.g. on {wit!r}' if wit is not None else ''))
         if not r['findings']:
             run.sample({'scanner': r['fn'], 'obligation': r['what'], 'abstract_states': r['stats'].get('configs'), 'returns_checked': r['stats'].get('returns'), 'verdict': 'holds'})
-    run.floor('scanner_obligations', 5, 'data-URL scanner obligations')
+    run.floor('scanner_obligations', 9, 'data-URL scanner obligations')
     run.floor('constructors_ok', 2, 'data URL constructors of the documented shape')
     run.floor('unchecked_ctors', 2, 'unchecked data URL constructors')
     return run.finish('model_checking', {
